@@ -177,6 +177,26 @@ func (r *rng) varText(lenIty string, big bool) string {
 	default:
 		n = r.intn(24)
 	}
+	if forceListLen > 0 {
+		// "large" values: variable-length text grows with the lists
+		n = forceListLen*10 + r.intn(8)
+		if n > prefixMax(lenIty) {
+			n = prefixMax(lenIty)
+		}
+	}
+	b := make([]byte, n)
+	for i := range b {
+		b[i] = r.textByte(' ')
+	}
+	return string(b)
+}
+
+// mid-size variable-length text (60..300 bytes, or the prefix maximum)
+func (r *rng) midText(lenIty string) string {
+	n := 60 + r.intn(240)
+	if n > prefixMax(lenIty) {
+		n = prefixMax(lenIty)
+	}
 	b := make([]byte, n)
 	for i := range b {
 		b[i] = r.textByte(' ')
@@ -275,7 +295,11 @@ func (r *rng) genMessage(t *genType, o genOpts) any {
 			case "fixed":
 				fv.SetString(r.fixedText(f, o.canonical))
 			default:
-				fv.SetString(r.varText(f.Len, o.bigLists))
+				if o.midLists && forceListLen == 0 {
+					fv.SetString(r.midText(f.Len))
+				} else {
+					fv.SetString(r.varText(f.Len, o.bigLists))
+				}
 			}
 		case "ints":
 			n := r.listLenOpt(f.Cnt, o, o.bigLists)
